@@ -31,6 +31,13 @@ def run_case(duration, outcome, tmo, cancel_at):
         @timeout(tmo)
         async def fn(a, b=0):
             state["started"] = loop.time()
+            if cancel_at == "with-completion":
+                # the caller is cancelled in the very loop iteration in which the function finishes, after the
+                # function's own wake-up was queued: the function completes, the caller must still end cancelled
+                async def helper():
+                    await asyncio.sleep(duration)
+                    state["cancel_result"] = state["caller_task"].cancel()
+                state["helper"] = asyncio.ensure_future(helper())
             try:
                 if outcome == "stubborn":
                     try:
@@ -59,9 +66,10 @@ def run_case(duration, outcome, tmo, cancel_at):
                 return ("exc", e, loop.time())
 
         t = asyncio.ensure_future(caller())
-        if cancel_at is not None:
+        state["caller_task"] = t
+        if cancel_at is not None and cancel_at != "with-completion":
             await asyncio.sleep(cancel_at)
-            t.cancel()
+            state["cancel_result"] = (not t.done()) and t.cancel()
         try:
             res = await t
         except asyncio.CancelledError:
@@ -75,6 +83,11 @@ def run_case(duration, outcome, tmo, cancel_at):
         return f"caller never finished: {h}"
     if "ended" not in state and "started" in state:
         return "the wrapped function was still running 5s after the call ended"
+    if cancel_at == "with-completion":
+        if state.get("cancel_result") and not (kind == "cancelled-task" or (kind == "exc" and isinstance(val, asyncio.CancelledError))):
+            return (f"the caller was cancelled while still inside the call (in the loop iteration in which the function "
+                    f"finished) but got {(kind, val)}")
+        return None
     finishes_first = duration < tmo and (cancel_at is None or duration < cancel_at)
     if cancel_at is not None and cancel_at < min(duration, tmo):
         if not (kind == "cancelled-task" or (kind == "exc" and isinstance(val, asyncio.CancelledError))):
@@ -112,7 +125,7 @@ def search():
     for outcome in OUTCOMES:
         for duration in (0.0, 0.5, 1.0, 2.0):
             for tmo in (0.5, 1.0, 3.0):
-                for cancel_at in (None, 0.0, 0.25, 0.75, 1.5, 9.0):
+                for cancel_at in (None, 0.0, 0.25, 0.75, 1.5, 9.0, "with-completion"):
                     n += 1
                     p = run_case(duration, outcome, tmo, cancel_at)
                     if p:
